@@ -4,6 +4,7 @@ import os
 import tempfile
 import time
 
+import code_tie
 import vlib
 from vlib import coq_str
 
@@ -37,6 +38,7 @@ META = {
 MODEL = ["theories/Caco/BuildCorr.vo"]
 PROOFS = ["theories/Props/C10.vo"]
 STATEMENT_FILES = ["theories/Props/C10.v", "theories/Caco/BuildGen.v"]
+SEMANTIC_TIE = code_tie.functions("C10")   # Go bodies proved equal to the model (Props/C10Code.v)
 
 
 # ------------------------------------------------------------ case -> Coq
@@ -350,6 +352,7 @@ def run(ck):
             ck.discharged = list(ck.obligations)
     if ck.thorough and proofs_ok:
         ck.coqchk(["Verif.Props.C10"])
+    code_tie.run(ck, "C10")
 
     binp = ck.build_harness("c10")
     cases = []
